@@ -312,8 +312,14 @@ C11_MapperOnceOnMatchingVariant(t, rq, c, lg) ==
         r = (IF S.o = "map" THEN (IF ra.k = "ok" THEN Res("ok", MapF(S.id, ra.v)) ELSE ra)
                             ELSE (IF ra.k = "err" THEN Res("err", MapG(S.id, ra.v)) ELSE ra))
 
+\* ... and the request reaches the first stage when `call` is invoked, not when the response future is first polled (two
+\* responses in flight reach an order-sensitive inner service in call order): the leftmost leaf is called in the `call` round
+RECURSIVE FirstLeafId(_)
+FirstLeafId(t) == IF t.o = "leaf" THEN t.id ELSE FirstLeafId(t.a)
 C11_WrappersTransparent(t, rq, c, lg) ==
-  Completed(lg) => lg[Len(lg)].res = Eval(Strip(SvcOf(t, c)), rq)
+  /\ Completed(lg) => lg[Len(lg)].res = Eval(Strip(SvcOf(t, c)), rq)
+  /\ \A i \in 1..Len(lg) : lg[i].ph = "call" =>
+        \E e \in Seq2Set(lg[i].acc) : e.e = "call" /\ e.id = FirstLeafId(SvcOf(t, c))
 
 \* every inner factory / closure / transform is invoked at most once, with the config the composition
 \* prescribes; all of them exactly once when the factory succeeds
